@@ -11,9 +11,10 @@ Open Scope list_scope.
 
 (* input rail k has id k, output rail k has id 100 + k *)
 Record turn_case := mkTC { tc_user : text; tc_iv : list verdict; tc_ov : list verdict; tc_llm : list text;
-                           tc_act : text }.   (* what the scripted custom action `rag` returns in this turn *)
+                           tc_act : text;     (* what the scripted custom action `rag` returns in this turn *)
+                           tc_in_on : bool; tc_out_on : bool }.   (* the call's generation options: rails.input / rails.output *)
 
-Definition tc_default := mkTC "" [] [] [] "".
+Definition tc_default := mkTC "" [] [] [] "" true true.
 
 Definition vf_c (turns : list turn_case) (t c : nat) (r : rail) (x : text) : verdict :=
   let tc := nth t turns tc_default in
@@ -48,8 +49,8 @@ Definition turn_v1_c (turns : list turn_case) :=
   turn_v1 (vf_c turns) (llm_c turns) (fun o => o) (intent_step_c turns) next_of_c predefined_c msg_of_c refusal_c.
 
 Definition conv_v1_c (turns : list turn_case) (cf : cfg) :=
-  conv_v1 (vf_c turns) (llm_c turns) (fun o => o) (intent_step_c turns) next_of_c predefined_c msg_of_c refusal_c
-          cf init_state (map tc_user turns).
+  conv_v1_opts (vf_c turns) (llm_c turns) (fun o => o) (intent_step_c turns) next_of_c predefined_c msg_of_c refusal_c
+          cf init_state (map (fun tc => (mkOpts (tc_in_on tc) (tc_out_on tc), tc_user tc)) turns).
 
 Definition conv_v2_c (fixd : bool) (turns : list turn_case) (cf : cfg2) :=
   conv_v2 fixd (vf_c turns) (llm_c turns) value_of_c refusal_c refusal_out_c cf init_state2 (map tc_user turns).
@@ -129,6 +130,35 @@ Definition check_v1 (c : cfg * list turn_case * list texp) : bool :=
   let '(cf, turns, exps) := c in
   list_eqb check_turn_v1 (conv_v1_c turns cf) exps.
 
+(* Colang 1.0 served through the explicit state API: `GenerationResponse.state` holds the events
+   of the LAST call only (generate_async stores `events` without the `state_events` it started
+   from), so a call sees the history of the previous call and nothing older.  The turn itself is
+   the same function; only the state it starts from is cut.  (The theorems hold from every start
+   state with the skip flag clear, so they cover this serving mode.)  Context variables older
+   than one call are not compared in this mode. *)
+Definition set_hist (st : pstate) (h : list hentry) : pstate :=
+  mkSt (tidx st) (skip st) (user_message st) (bot_message st) (trig_in st) (trig_out st) h (raw st).
+
+Fixpoint conv_v1_state (turns : list turn_case) (cf : cfg) (st : pstate) (mark : nat) (ts : list turn_case)
+  : list (pstate * list tev * reply) :=
+  match ts with
+  | [] => []
+  | tc :: ts' =>
+    let st0 := set_hist st (skipn mark (hist st)) in
+    let r := turn_v1_opts (vf_c turns) (llm_c turns) (fun o => o) (intent_step_c turns) next_of_c predefined_c
+                          msg_of_c refusal_c cf (mkOpts (tc_in_on tc) (tc_out_on tc)) st0 (tc_user tc) in
+    r :: conv_v1_state turns cf (fst (fst r)) (List.length (hist st0)) ts'
+  end.
+
+Definition check_turn_v1_state (r : pstate * list tev * reply) (e : texp) : bool :=
+  let '(st, tr, rp) := r in
+  list_eqb obs_match (trace_obs tr) (e_obs e) && reply_eqb rp (e_reply e) &&
+  Bool.eqb (skip st) (e_flag e) && list_eqb String.eqb (emitted tr) (e_utter e).
+
+Definition check_v1_state (c : cfg * list turn_case * list texp) : bool :=
+  let '(cf, turns, exps) := c in
+  list_eqb check_turn_v1_state (conv_v1_state turns cf init_state 0 turns) exps.
+
 Definition check_turn_v2 (r : pstate2 * list tev * reply) (e : texp) : bool :=
   let '(st, tr, rp) := r in
   list_eqb obs_match (trace_obs tr) (e_obs e) && reply_eqb rp (e_reply e) &&
@@ -147,7 +177,8 @@ Definition check_v2 (c : cfg2 * list turn_case * list texp) : bool := check_v2_w
 
 (* sanity: the F3 scenario on the shipped (fix = false) and on the repaired model *)
 Definition f3_turns :=
-  [mkTC "U0z" [] [Accept] ["""L0z"""] ""; mkTC "U1z" [] [Reject] ["""L1z"""] ""; mkTC "U2z" [] [Accept] ["""L2z"""] ""].
+  [mkTC "U0z" [] [Accept] ["""L0z"""] "" true true; mkTC "U1z" [] [Reject] ["""L1z"""] "" true true;
+   mkTC "U2z" [] [Accept] ["""L2z"""] "" true true].
 
 Example f3_shipped :
   map (fun r => (n_rail_calls (snd (fst r)), orip (fst (fst r)))) (conv_v2_c false f3_turns (mkCfg2 [] [100] false))
